@@ -15,128 +15,175 @@ def seg_name(e):
 
 
 def check_u1(rep, idx):
-    rep.rule("U1", "detail::dubins tries exactly the six Dubins words; each candidate records the word it was computed for", minimum=7)
+    """U1 on engine M: detail::dubins and dubins_curve are abstractly executed with the candidate computations dubins_csc / dubins_ccc replaced by scripted
+    oracles (rational segment lengths, +infinity for an infeasible word).  For every script the result must be the word of minimal length
+    d2 + R (a1 + a3) resp. R (a1 + a2 + a3) among the six Dubins words LSL, LSR, RSL, RSR, RLR, LRL, with the segment kinds of the word the lengths were
+    computed for; dubins_curve must realise Left / Right / Straight segments as the unit-speed body velocities (1, 0, +-1/R), (1, 0, 0) for R l resp. l."""
+    import itertools
+    import mach
+    from mach import Cell, PyFunc, Tup, Vec, Unab, AbstractViolation, simp
+    rep.rule("U1", "detail::dubins / dubins_curve, abstractly executed with scripted candidate lengths: the result is the shortest of the six Dubins words with its own segment kinds; "
+             "segments are realised as unit-speed arcs of curvature +-1/R", minimum=16)
     fns = [d for d in idx if d.kind in A.FUNCS and d.pattern and d.qname.split("::")[-1] == "dubins" and A.body(d.node) is not None]
     if len(fns) != 1:
         rep.broke("U1: detail::dubins not found (%d)" % len(fns))
         return
     d = fns[0]
-    b = A.body(d.node)
-    blocks = [s for s in A.kids(b) if s.get("kind") == "CompoundStmt"]
-    words = []
-    for blk in blocks:
-        dec = [x for x in A.walk(blk) if x.get("kind") == "DecompositionDecl"]
-        ifs = [x for x in A.kids(blk) if x.get("kind") == "IfStmt"]
-        f, l = A.loc(blk)
-        if len(dec) != 1 or len(ifs) != 1:
-            rep.broke("U1: candidate block at %s:%s does not have the shape {auto [..] = dubins_xxx(..); len; if (len < min) {...}}" % (fe.rel(f), l))
+    WORDS = [("csc", "Left", "Left"), ("csc", "Left", "Right"), ("csc", "Right", "Left"), ("csc", "Right", "Right"), ("ccc", "Right", "Left"), ("ccc", "Left", "Right")]
+    R = Fraction(3, 2)
+    INF = float("inf")
+
+    def kinds_of(w):
+        return [w[1], "Straight", w[2]] if w[0] == "csc" else [w[1], w[2], w[1]]
+
+    def length(w, l):
+        if any(isinstance(x, float) for x in l):
+            return INF
+        return l[1] + R * (l[0] + l[2]) if w[0] == "csc" else R * (l[0] + l[1] + l[2])
+
+    def machine(script, asked):
+        def seg(M, n, env, _):
+            t = (n or "").split("::")[-1]
+            if t in ("Left", "Right", "Straight"):
+                return t
+            return NotImplemented
+
+        def cand(kind):
+            def f(M, v):
+                if not (v[0] == "TARGET" and mach.num_equal(v[1], R)):
+                    raise AbstractViolation("a candidate is not computed for (target, R)")
+                w = (kind, v[2], v[3])
+                asked.append(w)
+                if w not in script:
+                    return Tup([Cell(INF), Cell(INF), Cell(INF)])          # not a Dubins word: infeasible
+                return Tup([Cell(x) for x in script[w]])
+            return PyFunc(f)
+        M = mach.Machine(funcs={"name:*": PyFunc(seg, lazy=True), "dubins_csc": cand("csc"), "dubins_ccc": cand("ccc"), "infinity": PyFunc(lambda M_, v: INF)})
+        M.global_env = mach.Env()
+        M.ieee_division = True
+        return M
+    scripts = []
+    base = [Fraction(k) for k in (1, 2, 3)]
+    for best in range(6):
+        sc = {}
+        for i, w in enumerate(WORDS):
+            bump = Fraction(0) if i == best else Fraction(5 + i)
+            sc[w] = [base[0] + bump, base[1], base[2]]
+        scripts.append(("shortest is %s" % "".join(k[0] for k in kinds_of(WORDS[best])), sc))
+    sc = {w: [INF, INF, INF] for w in WORDS}
+    sc[WORDS[4]] = [Fraction(1), Fraction(1), Fraction(1)]
+    scripts.append(("only RLR feasible", sc))
+    sc = {w: [Fraction(2), Fraction(2), Fraction(2)] for w in WORDS}
+    sc[WORDS[1]] = [Fraction(2), Fraction(0), Fraction(2)]         # a CSC word with a zero-length straight part beats CCC with the same angles
+    scripts.append(("LSR with zero straight part", sc))
+    sc = {w: [Fraction(1), Fraction(4), Fraction(1)] for w in WORDS}       # CSC: 4 + 3 = 7 ; CCC: 1.5 * 6 = 9 -> a CSC word wins; formula mix-ups change the winner
+    sc[WORDS[5]] = [Fraction(1), Fraction(2), Fraction(1)]                 # LRL: 1.5 * 4 = 6 wins
+    scripts.append(("LRL wins only with the CCC length formula", sc))
+    # a CCC word that would win only if its length were computed with the CSC formula a2 + R (a1 + a3), and a CSC word that would win only with the CCC formula
+    sc = {w: [Fraction(9), Fraction(9), Fraction(9)] for w in WORDS}
+    sc[WORDS[4]] = [Fraction(1), Fraction(2), Fraction(1)]                 # RLR: 1.5 * 4 = 6   (CSC formula would give 5)
+    sc[WORDS[0]] = [Fraction(1), Fraction(1), Fraction(2)]                 # LSL: 1 + 1.5 * 3 = 5.5 -> shortest
+    scripts.append(("LSL (5.5) beats RLR (6)", sc))
+    sc = {w: [Fraction(9), Fraction(9), Fraction(9)] for w in WORDS}
+    sc[WORDS[3]] = [Fraction(1), Fraction(4), Fraction(1)]                 # RSR: 4 + 3 = 7     (CCC formula would give 9)
+    sc[WORDS[5]] = [Fraction(2), Fraction(1), Fraction(2)]                 # LRL: 1.5 * 5 = 7.5
+    scripts.append(("RSR (7) beats LRL (7.5)", sc))
+    nviol = 0
+    for name, sc in scripts:
+        asked = []
+        try:
+            M = machine(sc, asked)
+            r = M.rv(M.run_function(d, [Cell("TARGET"), Cell(R)]))
+        except Unab as ex:
+            rep.broke("U1: detail::dubins is outside the abstract machine (%s): %s" % (name, ex))
+            return
+        except AbstractViolation as ex:
+            rep.instance("U1", "detail::dubins", name, ok=False, sample={})
+            rep.violation(Finding("U1", "detail::dubins", name, "%s: %s" % (name, ex), d.file, d.line))
             continue
-        init = [k for k in A.kids(dec[0]) if k.get("kind") != "BindingDecl"]
-        binds = [k.get("name") for k in A.kids(dec[0]) if k.get("kind") == "BindingDecl"]
-        call = A.to_expr(init[0])
-        kind = str(call[1]).split("::")[-1]
-        if kind not in ("dubins_csc", "dubins_ccc") or len(call[2]) != 4:
-            rep.broke("U1: unexpected candidate computation %s" % A.show(call)[:60])
-            continue
-        x, y = seg_name(call[2][2]), seg_name(call[2][3])
-        okargs = call[2][0] == ("ref", "target", call[2][0][2]) and A.show(call[2][1]) == "R"
-        # length formula
-        lens = [v for v in A.walk(blk) if v.get("kind") == "VarDecl" and v.get("name") == "len"]
-        oklen = False
-        if lens:
-            le = A.to_expr(A.kids(lens[0])[-1])
-            try:
-                env = {binds[0]: 3, binds[1]: 5, binds[2]: 7, "R": 11}
-                val = pe.ev(le, env)
-                want = 5 + 11 * (3 + 7) if kind == "dubins_csc" else 11 * (3 + 5 + 7)
-                oklen = val == want
-            except (pe.PEError, KeyError):
-                oklen = False
-        # guard and recorded word
-        gi = A.kids(ifs[0])
-        g = A.to_expr(gi[0])
-        okguard = g[0] == "op" and g[1] == "<" and g[2][0] == "ref" and g[2][1] == "len" and g[3][0] == "ref" and g[3][1] == "min_length"
-        assigns = {}
-        for x_ in A.walk(gi[1]):
-            if x_.get("kind") in ("BinaryOperator", "CXXOperatorCallExpr"):
-                e = A.to_expr(x_)
-                if e[0] == "op" and e[1] == "=" and e[2][0] == "ref":
-                    assigns[e[2][1]] = e[3]
-        okmin = "min_length" in assigns and assigns["min_length"][0] == "ref" and assigns["min_length"][1] == "len"
-        rec = []
-        if "ret" in assigns:
-            r = assigns["ret"]
-            items = r[1] if r[0] == "init" else (r[2] if r[0] == "ctor" else [])
-            if len(items) == 1 and items[0][0] == "init":
-                items = items[0][1]
-            for it in items:
-                args = it[2] if it[0] == "ctor" else (it[1] if it[0] == "init" else [])
-                if len(args) == 2:
-                    rec.append((seg_name(args[0]), A.show(args[1])))
-        want_rec = [(x, binds[0]), ("Straight" if kind == "dubins_csc" else y, binds[1]), (y if kind == "dubins_csc" else x, binds[2])]
-        okrec = rec == want_rec
-        word = (kind, x, y)
-        words.append(word)
-        ok = okargs and oklen and okguard and okmin and okrec
-        rep.instance("U1", "detail::dubins", "%s(%s,%s)" % word, ok=ok, sample={"file": fe.rel(f), "line": l, "recorded": rec})
-        if not ok:
-            why = []
-            if not okargs:
-                why.append("candidate not computed for (target, R)")
-            if not oklen:
-                why.append("path length is not %s" % ("d2 + R*(a1+a3)" if kind == "dubins_csc" else "R*(a1+a2+a3)"))
-            if not okguard or not okmin:
-                why.append("candidate is not kept exactly when len < min_length (and min_length updated)")
-            if not okrec:
-                why.append("recorded segments %s differ from the word %s the lengths were computed for" % (rec, want_rec))
-            rep.violation(Finding("U1", "detail::dubins", "%s(%s,%s)" % word, "; ".join(why), f, l))
-    want = {("dubins_csc", a, c) for a in ("Left", "Right") for c in ("Left", "Right")} | {("dubins_ccc", "Right", "Left"), ("dubins_ccc", "Left", "Right")}
-    ok = set(words) == want and len(words) == 6
-    rep.instance("U1", "detail::dubins", "words", ok=ok, sample={"words": sorted("%s(%s,%s)" % w for w in words)})
-    if not ok:
-        rep.violation(Finding("U1", "detail::dubins", "words", "candidate set %s is not the six Dubins words {LSL, LSR, RSL, RSR, RLR, LRL}: missing %s, extra %s"
-                              % (sorted(words), sorted(want - set(words)), sorted(set(words) - want)), d.file, d.line))
+        lens = {w: length(w, sc[w]) for w in WORDS}
+        best_len = min(lens.values(), key=float)
+        winners = [w for w in WORDS if lens[w] == best_len]
+        bad = None
+        got = None
+        while isinstance(r, Vec) and len(r.items) == 1 and isinstance(M.rv(r.items[0]), Vec):
+            r = M.rv(r.items[0])          # std::array aggregate written with an extra pair of braces
+        if isinstance(r, Vec) and len(r.items) == 3 and all(isinstance(M.rv(x), (Tup, Vec)) and len(M.rv(x).items) == 2 for x in r.items):
+            got = [(M.rv(M.rv(x).items[0]), M.rv(M.rv(x).items[1])) for x in r.items]
+        if set(asked) != set(WORDS) or len(asked) != 6:
+            bad = "the candidates tried are %s; the six Dubins words are LSL, LSR, RSL, RSR, RLR, LRL" % sorted("%s(%s,%s)" % w for w in asked)
+        elif got is None:
+            bad = "returns %s, not three (segment, length) pairs" % mach.show_val(r)[:120]
+        elif not any([g[0] for g in got] == kinds_of(w) and all(mach.num_equal(g[1], x) for g, x in zip(got, sc[w])) for w in winners):
+            bad = "returns %s; the shortest word is %s with lengths %s (path lengths: %s)" % (
+                [(g[0], str(g[1])) for g in got], "".join(k[0] for k in kinds_of(winners[0])), [str(x) for x in sc[winners[0]]],
+                {"".join(k[0] for k in kinds_of(w)): str(v) for w, v in lens.items()})
+        rep.instance("U1", "detail::dubins", name, ok=bad is None, sample={})
+        if bad:
+            nviol += 1
+            if nviol <= 3:
+                rep.violation(Finding("U1", "detail::dubins", name, "%s: %s" % (name, bad), d.file, d.line))
     # dubins_curve: segment -> body velocity and duration
     cs = [x for x in idx if x.kind in A.FUNCS and x.pattern and x.qname.split("::")[-1] == "dubins_curve" and A.body(x.node) is not None]
     if len(cs) != 1:
         rep.broke("U1: dubins_curve not found")
         return
     c = cs[0]
-    got = {}
-    for x_ in A.walk(A.body(c.node)):
-        if x_.get("kind") == "IfStmt":
-            ks = A.kids(x_)
-            cond = A.to_expr(ks[0])
-            if cond[0] == "op" and cond[1] == "==":
-                seg = seg_name(cond[3])
-                calls = [y for y in A.walk(ks[1]) if y.get("kind") == "CallExpr" and "ConstantVelocity" in (A.ntext(A.kids(y)[0]))]
-                if calls:
-                    got[seg] = A.to_expr(calls[0])[2]
-            if len(ks) > 2 and ks[2].get("kind") == "CompoundStmt":
-                calls = [y for y in A.walk(ks[2]) if y.get("kind") == "CallExpr" and "ConstantVelocity" in (A.ntext(A.kids(y)[0]))]
-                if calls and "Straight" not in got:
-                    got["Straight"] = A.to_expr(calls[0])[2]
-    okc = True
-    detail = {}
-    try:
-        for seg, args in got.items():
-            vel = args[0]
-            vargs = vel[2] if vel[0] == "ctor" else []
-            vals = [pe.ev(v, {"R": 4}) for v in vargs]
-            dur = pe.ev(args[1], {"R": 4, "l": 3})
-            detail[seg] = ([str(v) for v in vals], str(dur))
-            want_v = {"Left": [1, 0, Fraction(1, 4)], "Right": [1, 0, Fraction(-1, 4)], "Straight": [1, 0, 0]}[seg]
-            want_d = {"Left": 12, "Right": 12, "Straight": 3}[seg]
-            if vals != want_v or dur != want_d:
-                okc = False
-    except (pe.PEError, KeyError) as ex:
-        rep.broke("U1: cannot evaluate dubins_curve segment construction: %s" % ex)
-        return
-    okc = okc and set(got) == {"Left", "Right", "Straight"}
-    rep.instance("U1", "dubins_curve", "segments", ok=okc, sample={"file": fe.rel(c.file), "line": c.line, "segments": detail})
-    if not okc:
-        rep.violation(Finding("U1", "dubins_curve", "segments",
-                              "segments are not realised as unit-speed arcs: expected Left/Right -> body velocity (1,0,+-1/R) for R*l, Straight -> (1,0,0) for l; got %s" % detail, c.file, c.line))
+    for kinds in itertools.product(("Left", "Right", "Straight"), repeat=3):
+        if kinds not in (("Left", "Straight", "Right"), ("Right", "Left", "Right"), ("Straight", "Straight", "Left"), ("Left", "Right", "Left"), ("Right", "Straight", "Straight")):
+            continue
+        ls = [Fraction(2), Fraction(5), Fraction(1, 3)]
+        segs = []
+
+        def seg(M, n, env, _):
+            t = (n or "").split("::")[-1]
+            if t in ("Left", "Right", "Straight"):
+                return t
+            return NotImplemented
+
+        class Curve:
+            def __init__(self):
+                self.parts = []
+
+            def show(self):
+                return "curve%s" % self.parts
+
+            def iop_add(self, M, v):
+                self.parts.append(v)
+
+        def cv(M, v):
+            vel = v[0]
+            vals = [simp(x) for x in (vel.items if isinstance(vel, Vec) else [])]
+            return ("cv", tuple(vals), simp(v[1]))
+
+        def types(M, tyn, args, env):
+            if tyn.startswith(("Spline<", "constSpline<")) and not args:
+                return Curve()
+            if tyn.startswith("Eigen::Vector3d") and args is not None and len(args) == 3:
+                return Vec([M.eval(a, env) for a in args], "Vector3d")
+            return NotImplemented
+        M = mach.Machine(type_factory=types, funcs={"name:*": PyFunc(seg, lazy=True), "ConstantVelocity": PyFunc(cv),
+                                                    "dubins": PyFunc(lambda M_, v: Vec([Tup([Cell(k), Cell(l)]) for k, l in zip(kinds, ls)], "desc"))})
+        M.global_env = mach.Env()
+        inst = "segments %s" % "".join(k[0] for k in kinds)
+        try:
+            r = M.rv(M.run_function(c, [Cell("TARGET"), Cell(R)]))
+        except Unab as ex:
+            rep.broke("U1: dubins_curve is outside the abstract machine (%s): %s" % (inst, ex))
+            return
+        except AbstractViolation as ex:
+            rep.instance("U1", "dubins_curve", inst, ok=False, sample={})
+            rep.violation(Finding("U1", "dubins_curve", inst, "%s: %s" % (inst, ex), c.file, c.line))
+            continue
+        want = []
+        for k, l in zip(kinds, ls):
+            w = {"Left": 1 / R, "Right": -1 / R, "Straight": Fraction(0)}[k]
+            want.append(("cv", (Fraction(1), Fraction(0), w), (R * l) if k != "Straight" else l))
+        ok = isinstance(r, Curve) and r.parts == want
+        rep.instance("U1", "dubins_curve", inst, ok=ok, sample={})
+        if not ok:
+            rep.violation(Finding("U1", "dubins_curve", inst, "for the description %s the curve is built from %s; unit-speed arcs need %s" % (
+                list(zip(kinds, [str(x) for x in ls])), getattr(r, "parts", r), want), c.file, c.line))
 
 
 def count_rows(stmt, env):
@@ -549,6 +596,108 @@ def check_u4(rep, idx):
                               "(e.g. start_vel = 1/2 gives s'(0) = %s)" % (A.show(init)[:60], "sqrt(1/2)" if pe.ev(init, {"start_vel": Fraction(1, 2), "v2max(0)": 9, "v2max[0]": 9}) == Fraction(1, 2) else "a different value"), f, l))
 
 
+def check_u5(rep, idx):
+    """U5: every evaluation of the input curve inside the backward and the forward pass of reparameterize_spline is at the grid point t_min + i (t_max - t_min) / N of
+    the pass's own counter i (so that the time map runs from t_min to t_max, not from 0), and the evaluation that fixes the end speed is at t_max.  The argument
+    expressions are resolved through the single-assignment locals of the function and compared by identity testing over exact rationals."""
+    rep.rule("U5", "reparameterize_spline: the curve is sampled at t_min + i (t_max - t_min) / N in both passes and at t_max for the end condition", minimum=3)
+    fns = [d for d in idx if d.kind in A.FUNCS and d.pattern and d.qname.split("::")[-1] == "reparameterize_spline" and A.body(d.node) is not None]
+    if len(fns) != 1:
+        rep.broke("U5: reparameterize_spline not found (%d)" % len(fns))
+        return
+    d = fns[0]
+    ps = [p.get("name") for p in A.params(d.node)]
+    curve = ps[0]
+    b = A.body(d.node)
+    parents = {}
+    for x in A.walk(b):
+        for c in A.kids(x):
+            parents[id(c)] = x
+    locs = {}
+    for x in A.walk(b):
+        if x.get("kind") == "VarDecl" and A.kids(x) and x.get("name"):
+            locs.setdefault(x.get("name"), []).append(A.to_expr(A.kids(x)[-1]))
+
+    def scoped(name, node):
+        """initialiser of the declaration of `name` that is visible at `node` (innermost enclosing block first)"""
+        cur = node
+        while id(cur) in parents:
+            cur = parents[id(cur)]
+            if cur.get("kind") == "CompoundStmt":
+                for st in A.kids(cur):
+                    if st.get("kind") == "DeclStmt":
+                        for v in A.kids(st):
+                            if v.get("kind") == "VarDecl" and v.get("name") == name and A.kids(v):
+                                return A.to_expr(A.kids(v)[-1])
+        return None
+
+    def resolve(e, depth=0):
+        if depth > 12 or not isinstance(e, (tuple, list)):
+            return e
+        if isinstance(e, list):
+            return [resolve(y, depth) for y in e]
+        if e and e[0] == "ref" and e[1] not in loopvars and e[1] in locs:
+            init = locs[e[1]][0] if len(locs[e[1]]) == 1 else scoped(e[1], here[0])
+            if init is not None:
+                return resolve(init, depth + 1)
+        if e and e[0] == "lambda":
+            return e
+        return tuple(resolve(y, depth) if isinstance(y, (tuple, list)) else y for y in e)
+    calls = []
+    loopvars = set()
+    for x in A.walk(b):
+        if x.get("kind") in ("CallExpr", "CXXOperatorCallExpr"):
+            e = A.to_expr(x)
+            args = None
+            if e[0] == "call" and e[1] == curve:
+                args = e[2]
+            elif e[0] == "sub" and e[1][0] == "ref" and e[1][1] == curve:
+                args = e[2]
+            if args:
+                calls.append((x, args[0]))
+    if len(calls) < 3:
+        rep.broke("U5: %d evaluations of the input curve found (3 confirmed by hand: end condition, backward pass, forward pass)" % len(calls))
+        return
+    here = [None]
+    for node, arg in calls:
+        here[0] = node
+        # enclosing loop counter, if any
+        loopvars = set()
+        cur = node
+        counter = None
+        while id(cur) in parents:
+            cur = parents[id(cur)]
+            if cur.get("kind") in ("CXXForRangeStmt", "ForStmt", "WhileStmt"):
+                for v in A.walk(cur):
+                    if v.get("kind") == "VarDecl" and not (v.get("name") or "").startswith("__"):
+                        counter = v.get("name")
+                        break
+                break
+        if counter:
+            loopvars.add(counter)
+        f, l = A.loc(node)
+        e = resolve(arg)
+        bad = None
+        try:
+            for (a_, b_, n_, i_) in ((Fraction(2), Fraction(13, 2), 9, 4), (Fraction(-1), Fraction(5), 4, 0), (Fraction(3), Fraction(4), 7, 6)):
+                env = {"%s.t_min()" % curve: a_, "%s.t_max()" % curve: b_, "N": n_}
+                if counter:
+                    env[counter] = i_
+                got = pe.ev(e, env)
+                want = a_ + i_ * (b_ - a_) / n_ if counter else b_
+                if got != want:
+                    bad = "for t_min = %s, t_max = %s, N = %d%s the curve is evaluated at %s; the grid point is %s" % (a_, b_, n_, (", i = %d" % i_) if counter else "", got, want)
+                    break
+        except pe.PEError as ex:
+            rep.broke("U5: cannot evaluate the sampling parameter `%s` at %s:%s: %s" % (A.show(arg)[:40], fe.rel(f), l, ex))
+            continue
+        inst = "sample in %s" % ("the loop over %s @%s" % (counter, l) if counter else "the end condition")
+        rep.instance("U5", "reparameterize_spline", "loop sample" if counter else "end sample", ok=bad is None, sample={"file": fe.rel(f), "line": l, "argument": A.show(e)[:80]})
+        if bad:
+            rep.violation(Finding("U5", "reparameterize_spline", "loop sample" if counter else "end sample",
+                                  "%s: %s (the time map must run from t_min to t_max; a curve whose t_min is not 0, e.g. a BSpline, is sampled at the wrong parameters)" % (inst, bad), f, l))
+
+
 def check(rep, tier, replay=None):
     rep.explanations.append(
         "C14 (thin): U1 exhaustiveness and self-consistency of the six Dubins candidates and the realisation of segments as unit-speed "
@@ -562,3 +711,4 @@ def check(rep, tier, replay=None):
     check_u2(rep, A.index(d["fit_spline"]))
     check_u3(rep, A.index(d["fit_spline"]))
     check_u4(rep, A.index(d["reparameterize_spline"]))
+    check_u5(rep, A.index(d["reparameterize_spline"]))
